@@ -1054,14 +1054,19 @@ def check_climate_network(ctx, rng, quick):
     from pyunicorn.climate import EventSeriesClimateNetwork as ESCN
     from pyunicorn.eventseries import EventSeries
     base = ESCN.SmallTestData()
-    for c in range(4 if quick else 20):
+    for c in range(8 if quick else 40):
         method = rng.choice(["ES", "ECA"])
         s = rng.choice(SYMMS_ECA if method == "ECA" or rng.random() < 0.5 else SYMMS_ES)
-        q = rng.choice([0.5, 0.625, 0.75])
+        q = rng.choice([0.125, 0.25, 0.375, 0.5, 0.625, 0.75, 0.875])
         p_value = None if c % 2 == 0 else rng.choice([0.05, 0.5])
+        # the wrapper must hand every thresholding argument on unchanged, also when
+        # threshold_types is omitted (documented default rule: below the median -> 'below')
+        ttypes = rng.choice(["above", "below", None, None])
+        thr_kw = dict(threshold_method="quantile", threshold_values=q)
+        if ttypes is not None:
+            thr_kw["threshold_types"] = ttypes
         kw = dict(method=method, taumax=rng.choice([1.0, 2.0, 16.0]), lag=0.0,
-                  symmetrization=s, threshold_method="quantile", threshold_values=q,
-                  threshold_types="above", silence_level=3, n_surr=5)
+                  symmetrization=s, silence_level=3, n_surr=5, **thr_kw)
         ctx.count(f"climate-network:{'p_value' if p_value is not None else 'plain'}")
         ctx.case(("escn", method, s, q, p_value, kw["taumax"]), True)
         np.random.seed(rng.randrange(2 ** 31))
@@ -1073,8 +1078,17 @@ def check_climate_network(ctx, rng, quick):
                       "p_value": p_value is not None},
                      f"EventSeriesClimateNetwork(p_value={p_value}) raised {net!r}", rep)
             continue
-        ev = EventSeries(base.observable(), taumax=kw["taumax"], lag=0.0,
-                         threshold_method="quantile", threshold_values=q, threshold_types="above")
+        with warnings.catch_warnings():
+            warnings.simplefilter("ignore")
+            ev = EventSeries(base.observable(), taumax=kw["taumax"], lag=0.0, **thr_kw)
+        ctx.count(f"climate-network:threshold_types={ttypes}")
+        if not np.array_equal(np.asarray(net.get_event_matrix()), np.asarray(ev.get_event_matrix())):
+            ctx.fail({"kind": "climate-network", "what": "event-matrix",
+                      "threshold_types": str(ttypes)},
+                     f"EventSeriesClimateNetwork(threshold_values={q}, threshold_types={ttypes}) marks "
+                     f"{int(np.asarray(net.get_event_matrix()).sum())} samples, the plain EventSeries "
+                     f"with the same arguments {int(np.asarray(ev.get_event_matrix()).sum())}", rep)
+            continue
         with warnings.catch_warnings():
             warnings.simplefilter("ignore")
             with np.errstate(all="ignore"):
